@@ -100,7 +100,7 @@ async def _echo(proc):
 
 
 def run_session(payloads, client_kw=None, server_kw=None, chunker=None,
-                mitm=None, rekey_bytes=None, after_connect=None):
+                mitm=None, rekey_bytes=None, after_connect=None, burst=False):
     """One real session: connect, open an echo process, send each payload
     and read it back, close.  Returns dict(rec, outcome, echoed, ...)."""
     loop = new_loop()
@@ -145,10 +145,19 @@ def run_session(payloads, client_kw=None, server_kw=None, chunker=None,
             if after_connect is not None:
                 await after_connect(conn, NoAuth.last_conn, rec)
             proc = await conn.create_process('x', encoding=None)
-            for p in payloads:
-                proc.stdin.write(p)
-                got = await proc.stdout.readexactly(len(p)) if p else b''
-                out['echoed'].append(got)
+            if burst:
+                # everything is written before anything is read: the peer
+                # sees one chunk spanning all the packets
+                for p in payloads:
+                    proc.stdin.write(p)
+                for p in payloads:
+                    got = await proc.stdout.readexactly(len(p)) if p else b''
+                    out['echoed'].append(got)
+            else:
+                for p in payloads:
+                    proc.stdin.write(p)
+                    got = await proc.stdout.readexactly(len(p)) if p else b''
+                    out['echoed'].append(got)
             proc.stdin.write_eof()
             await proc.wait()
             conn.close()
